@@ -277,12 +277,12 @@ func parseTransactionsPayload(data []byte) ([]*common.VersionedTransaction, erro
 		if len(data[4:]) < int(size) {
 			return nil, fmt.Errorf("invalid transactions payload size %d %d", len(data[4:]), size)
 		}
-		tx, err := common.UnmarshalVersionedTransaction(data[4 : 4+size])
+		tx, err := common.UnmarshalVersionedTransaction(data[4 : 4+int(size)])
 		if err != nil {
 			return nil, err
 		}
 		txs[i] = tx
-		data = data[4+size:]
+		data = data[4+int(size):]
 	}
 	if len(data) > 0 {
 		return nil, fmt.Errorf("invalid transactions payload trailing data %d", len(data))
